@@ -606,6 +606,17 @@ class VIter(VBase):
 
 CLASSES["VTwoSeq"] = VTwoSeq
 CLASSES["VIter"] = VIter
+@dataclass(frozen=True)
+class VNcKid(VBase):
+    """Child fields declared with compare=False (comments, trivia): they are children all the same."""
+
+    v: int = 0
+    kid: VBase | None = field(default=None, compare=False)
+    trivia: tuple[VBase, ...] = field(default=(), compare=False)
+    main: VBase | None = None
+
+
+CLASSES["VNcKid"] = VNcKid
 _STAMPS = __import__("itertools").count(1)
 
 
